@@ -234,6 +234,12 @@ func byzToken(r *rand.Rand, root ed25519.PrivateKey, nblocks int) []byte {
 		if r.Intn(40) == 0 {
 			sb.Alg = uint64(1 + r.Intn(2))
 		}
+		if r.Intn(25) == 0 { // a correctly signed block announcing a key of the wrong length
+			l := []int{0, 1, 31, 33, 64}[r.Intn(5)]
+			k := make([]byte, l)
+			copy(k, sb.Key)
+			sb.Key = k
+		}
 		sb.Signature = ed25519.Sign(cur, ref.SignedPayload(sb))
 		if i == 0 {
 			env.Authority = sb
@@ -360,6 +366,14 @@ func genC10(r *rand.Rand, run int, tier string) *vm.Plan {
 		h.add(vm.Op{K: "attenuate", A: t, Blk: blkp(g.Block(2, 1, 1)), Ent: entropy(r), Out: h.slot()})
 		h.add(vm.Op{K: "seal", A: t, Out: h.slot()})
 		h.add(vm.Op{K: "ser", A: t, Out: h.slot()})
+	}
+	// a quarter of the runs evaluate the hostile content under a stormy schedule with clock stalls
+	// (the verifier times out in the middle of an evaluation and the engine's goroutines run on)
+	switch r.Intn(8) {
+	case 0, 1:
+		schedule(r, h.p, "stall", 1e9, 20+r.Intn(400))
+	case 2:
+		schedule(r, h.p, "order", 1e9, 0)
 	}
 	return h.p
 }
